@@ -22,6 +22,7 @@ import XdslModel.ParallelMov
 import XdslModel.Loops
 import XdslModel.DCE
 import XdslModel.EGraph
+import XdslModel.RiscVRules
 /-!
 Model registry for the driver: `MODEL <name>` selects a `(state, lineStep)` pair.
 A continuation-passing encoding is used because the state types differ.
@@ -56,6 +57,7 @@ def run? (name : String) : Option Runner :=
   | "loops" => some fun k => k Loops.lineStep ()
   | "dce" => some fun k => k DCE.lineStep ()
   | "egraph" => some fun k => k EGraph.lineStep ()
+  | "riscv" => some fun k => k RiscV.rulesLineStep ()
   | _ => none
 
 end Xdsl.Registry
